@@ -1,7 +1,7 @@
 SPECIFICATION Spec
 CONSTANTS
   Shapes <- ShapesT
-  Depth = 3
+  Depth = 2
   Dump = TRUE
 INVARIANT ImplAgrees
 INVARIANT InRange
